@@ -6,7 +6,7 @@ IDS="$@"
 mkdir -p /verif/.work/runall
 for id in $IDS; do
   s=$(date +%s)
-  timeout 3600 /verif/check $id $TIER > /verif/.work/runall/$id.$TIER.log 2>&1
+  timeout ${RUNALL_TIMEOUT:-3600} /verif/check $id $TIER > /verif/.work/runall/$id.$TIER.log 2>&1
   rc=$?
   e=$(date +%s)
   echo "$id $TIER exit=$rc $((e-s))s $(grep -c '^VIOLATION' /verif/.work/runall/$id.$TIER.log) violations, $(grep -c '^INCONCLUSIVE' /verif/.work/runall/$id.$TIER.log) inconclusive"
